@@ -231,6 +231,11 @@ func (e *isoExec) run(c any) Outcome {
 	defer e.mu.Unlock()
 	fresh := e.p.IsoFresh
 	r := e.once(c, fresh)
+	if r.died && conclusiveDeath(r.err.Error()) {
+		// a race report, panic or fatal error with go-plugin frames is conclusive on its own: such
+		// failures are schedule dependent and need not repeat
+		return Outcome{Violation: r.err.Error(), NonTrivial: true, Labels: []string{"iso:host-died-conclusive"}}
+	}
 	if r.died {
 		// confirm in a fresh child: a death that does not repeat is not reported
 		r2 := e.once(c, true)
@@ -306,4 +311,13 @@ func (t *tailBuffer) String() string {
 		b = b[len(b)-t.max:]
 	}
 	return string(b)
+}
+
+// conclusiveDeath: the dead host's output shows a data race, panic or runtime fatal error whose
+// stacks run through go-plugin's sources (built from /repo).
+func conclusiveDeath(msg string) bool {
+	if !strings.Contains(msg, "/repo/") && !strings.Contains(msg, "hashicorp/go-plugin.") {
+		return false
+	}
+	return strings.Contains(msg, "DATA RACE") || strings.Contains(msg, "panic:") || strings.Contains(msg, "fatal error:")
 }
